@@ -12,7 +12,10 @@ i.e. a tolerance derived from JAX's own f32-vs-f64 discrepancy on the same input
 forward error a one-ulp input perturbation causes (element-wise and norm-wise, because
 backward-stable kernels are only norm-wise accurate), never a fixed rtol.  K_A * eps is the
 absolute unit round-off at scale 1 (kernels like exp(x)-1 or 1+erf have intermediates of size 1).
-Elements where eager JAX f32 overflowed to inf while its f64 evaluation is finite are skipped.
+Elements where eager JAX f32 overflowed to inf while its f64 evaluation is finite are skipped, and so are
+singular points where JAX returns ±inf and ORT NaN.  A deviation of at most BORDERLINE x that tolerance
+(finite on both sides) is counted as `borderline` and reported, not raised as a finding (calibrated on the
+unchanged tree, DESIGN §7.1).
 Integer / bool outputs must be identical, shapes identical.  Elements where eager JAX itself returns
 NaN are outside the callable's domain and are skipped (counted).
 """
@@ -30,6 +33,7 @@ from typing import Any, Optional
 HERE = Path(__file__).resolve().parent
 
 K_D, K_E, K_N, K_A = 64.0, 64.0, 64.0, 4.0
+BORDERLINE = 16.0     # deviations up to BORDERLINE x the derived tolerance are counted as borderline, not as findings
 
 HALF_POOL = [0.5, -0.5, 1.5, -1.5, 2.5, -2.5, 3.5, -3.5, 0.0, 1.0, -1.0, 2.0, -2.0, 4.5, -4.5]
 MAG_POOL = [0.0, 1.0, -1.0, 1e-3, -1e-3, 1e-6, -1e-6, 20.0, -20.0, 100.0, -100.0, 1e4, -1e4, 0.25, -7.0,
@@ -339,6 +343,7 @@ def compare(ort_out, j_main, j_ref, f64: bool, j_pert=None, declared=None, unord
     skipped_nan = 0
     worst = 0.0
     used_declared = False
+    borderline = 0.0
 
     def _sorted(a):
         a = np.asarray(a)
@@ -430,6 +435,15 @@ def compare(ort_out, j_main, j_ref, f64: bool, j_pert=None, declared=None, unord
                 fmax = float(np.finfo(np.float64 if f64 else np.float32).max)
                 bad |= inf_e & ~((oo == ee) | (np.sign(oo) == np.sign(ee)) & (np.abs(oo) >= fmax / 4))
             if bad.any():
+                with np.errstate(all="ignore"):
+                    excess = np.where(bad, np.abs(oo - ee) / np.maximum(tol, 1e-300), 0.0)
+                    excess = np.where(np.isfinite(excess), excess, 1e300)
+                if float(excess.max()) <= BORDERLINE:
+                    # within BORDERLINE x the derived tolerance and finite on both sides: numerical noise of a
+                    # different but equally valid algorithm cannot be excluded -> counted, not a finding
+                    borderline = max(borderline, float(excess.max()))
+                    bad = np.zeros(ee.shape, dtype=bool)
+            if bad.any():
                 at = tuple(int(i) for i in np.argwhere(bad)[0])
                 with np.errstate(all="ignore"):
                     excess = np.where(bad, np.abs(oo - ee) / np.maximum(tol, 1e-300), 0.0)
@@ -442,8 +456,8 @@ def compare(ort_out, j_main, j_ref, f64: bool, j_pert=None, declared=None, unord
                 r = np.where(fin, np.abs(oo - ee) / np.maximum(tol, 1e-300), 0.0)
                 if r.size:
                     worst = max(worst, float(np.nanmax(r)))
-    return {"status": "ok", "skipped_nan_elements": skipped_nan, "worst_ratio": round(worst, 4),
-            "declared_tolerance_fallback": used_declared}
+    return {"status": "ok", "skipped_nan_elements": skipped_nan, "worst_ratio": round(max(worst, borderline), 4),
+            "borderline": borderline > 0, "declared_tolerance_fallback": used_declared}
 
 
 # --------------------------------------------------------------------------------------- one case
@@ -526,11 +540,36 @@ def ort_feed(sess, xs, params, nchw_in):
     return feed
 
 
-def jax_eval(fn, xs, params, f64: bool):
+def _cast_leaves(fn, dtype):
+    """For callables that are pytrees (equinox / flax modules): the same callable with its floating array
+    leaves cast to `dtype`, so that a float64 evaluation really computes in float64."""
+    import jax
+    import jax.numpy as jnp
+    import numpy as np
+    try:
+        leaves = jax.tree_util.tree_leaves(fn)
+    except Exception:
+        return fn
+    if not any(hasattr(l, "dtype") and hasattr(l, "shape") for l in leaves) or leaves == [fn]:
+        return fn
+
+    def cast(a):
+        if hasattr(a, "dtype") and hasattr(a, "astype") and jnp.issubdtype(a.dtype, jnp.floating):
+            return jnp.asarray(a).astype(dtype)
+        return a
+    try:
+        return jax.tree_util.tree_map(cast, fn)
+    except Exception:
+        return fn
+
+
+def jax_eval(fn, xs, params, f64: bool, cast_callable: bool = False):
     import jax
     import jax.numpy as jnp
     import numpy as np
     with _X64(f64):
+        if cast_callable:
+            fn = _cast_leaves(fn, jnp.float64 if f64 else jnp.float32)
         args = []
         for x in xs:
             if f64 and np.issubdtype(x.dtype, np.floating):
@@ -602,10 +641,13 @@ def run_case(index: int, seed: int, kinds: list[str], symval: int = 2) -> dict:
             res["draws"].append(d)
             continue
         try:
-            j_ref = jax_eval(fn, xs, params, not f64)
+            j_ref = jax_eval(fn, xs, params, not f64, cast_callable=True)
         except Exception as e:
-            j_ref = None
-            d["no_ref"] = f"{type(e).__name__}"[:80]
+            try:
+                j_ref = jax_eval(fn, xs, params, not f64)
+            except Exception as e2:
+                j_ref = None
+                d["no_ref"] = f"{type(e2).__name__}"[:80]
         j_pert = None
         try:
             prng = Rng(case_seed(seed, cid, kind + "|pert"))
